@@ -77,7 +77,7 @@ STRENGTHENED = {
     "C09-eager-exception-repr": "missed at first; the outcome alphabet gained exceptions that cannot be printed",
     "C10-end-stop-drops-backlogged": "missed at first; C10 gained run_behind_release (a second slow request behind the node's own unacknowledged separate response)",
     "C11-fetch-outer-code-leak": "missed at first; C11 gained the rule that the outer code depends on Observe alone",
-    "C11-echo-retry-stale-request-id": "not reported: the change is in transports/oscore.py (the OSCORE transport glue), which C11 does not drive - it calls protect()/unprotect() of the anchored aiocoap/oscore.py directly",
+    "C11-echo-retry-stale-request-id": "out of reach at first (the change is in transports/oscore.py, which C11 did not drive); reported since C11 runs the real client transport against the real site wrapper over the virtual network (observation after an Echo recovery)",
     "C12-group-peers-share-window": "not reported: group OSCORE is outside C12's scope (the stand-in crypto has no signature / key-agreement primitives)",
     "C13-echo-token-per-process": "missed at first; C13 gained fixed histories with two process deaths around an Echo exchange",
     "C14-unmatched-piggyback-keeps-exchange": "missed at first; C14 gained the withdrawal of the request whose exchange is open",
